@@ -3,6 +3,7 @@
 package main
 
 import (
+	"encoding/json"
 	"flag"
 	"fmt"
 	"os"
@@ -35,6 +36,7 @@ func main() {
 		tags   = flag.String("tags", "", "build tags of the analysed configuration")
 		dump   = flag.String("dump", "", "debug: dump SSA of functions whose name contains this")
 		graph  = flag.String("graph", "vta", "call graph for cones: vta|cha")
+		merge  = flag.String("merge", "", "JSON file whose content is recorded under coverage.thorough_extras")
 	)
 	flag.Parse()
 	if *dump != "" {
@@ -78,6 +80,19 @@ func main() {
 		}()
 		def.Run(c)
 	}()
+	if *merge != "" {
+		if b, err := os.ReadFile(*merge); err == nil {
+			var v any
+			if json.Unmarshal(b, &v) == nil {
+				c.Extra["thorough_extras"] = v
+			} else {
+				c.Extra["thorough_extras"] = string(b)
+			}
+		}
+	}
+	if s := os.Getenv("VERIF_SEED"); s != "" {
+		c.Note("VERIF_SEED=%s given; the analysis makes no random choices", s)
+	}
 	os.Exit(c.Finish(*out, *known, cmdline))
 }
 
